@@ -158,6 +158,14 @@ def run(prop, tier):
                 cases.append(((cf, udp, fd), cnt, fill))
         # a long run through one talker and one listener process: 300 single-frame packets (the 8-bit sequence numbers wrap)
         cases.append(((cf, udp, fd), 1, [(R[k % len(R)][0], bytes((k + i) & 0xFF for i in range(1 + k % 8)), R[k % len(R)][2]) for k in range(300)]))
+        # consecutive packets whose layout changes, payloads all ones (whatever one packet leaves in the talker's buffer must
+        # not show in the next)
+        lens = (0, 4, 8) if not fd else (0, 4, 8, 64)
+        for la, lb, lc, ld in itertools.product(lens, repeat=4):
+            if (la, lb) == (lc, ld):
+                continue
+            fl = R[0][2]
+            cases.append(((cf, udp, fd), 2, [(0x1FFFFFFF | EFF, b'\xff' * la, fl), (0x1FFFFFFF | EFF, b'\xff' * lb, fl), (0x000, b'\xff' * lc, fl), (0x000, b'\xff' * ld, fl)]))
         # two packets in sequence
         for tup in itertools.product(R[:6], repeat=2):
             cases.append(((cf, udp, fd), 1, list(tup)))
